@@ -67,11 +67,18 @@ Fixpoint dirs_of (es : list element) : list directive :=
   | EEmpty _ :: r => dirs_of r
   end.
 
-(* the meaning: the argument of the last directive of that name *)
-Definition find_last {V} (n : bytes) (kvs : list (bytes * V)) : option V :=
-  fold_left (fun acc kv => if beq n (fst kv) then Some (snd kv) else acc) kvs None.
+(* the meaning: the argument of the last directive of that name — except for no-cache, whose occurrences add up
+   (unqualified as soon as one of them is; otherwise all their field names, the combined list being read once more as
+   a quoted-string would, which leaves a list of field names as it is) *)
+Definition step_meaning (n : bytes) (acc : option bytes) (a : bytes) : option bytes :=
+  match acc with
+  | Some s => if beq n no_cache_name then Some (parse_quoted_string (merge_args s a)) else Some a
+  | None => Some a
+  end.
+Definition find_merged (n : bytes) (kvs : list (bytes * bytes)) (acc : option bytes) : option bytes :=
+  fold_left (fun acc kv => if beq n (fst kv) then step_meaning n acc (snd kv) else acc) kvs acc.
 Definition meaning (ds : list directive) (n : bytes) : option bytes :=
-  find_last n (map (fun d => (dn d, da d)) ds).
+  find_merged n (map (fun d => (dn d, da d)) ds) None.
 
 (* the canonical spelling: lower-case name, token argument when it is a token, else quoted; no
    whitespace, no empty elements, one line *)
